@@ -463,6 +463,9 @@ MUTATIONS = {
     "te_gzip": _te_variant("gzip"),
     "te_gzip_chunked": _te_variant("gzip, chunked"),
     "te_ows": _te_variant("chunked \t"),
+    "te_no_coding": lambda segs, rng: _te_variant(rng.choice(["", " ", " \t ", ",", " , "]))(segs, rng),
+    "stray_eol_before_request": lambda segs, rng: bool(segs.insert(0, ["junk", "", rng.choice(["\n", "\r", "\r\n\n", "\n\r\n", "\r\r\n"])]) or True),
+    "crlf_before_request": lambda segs, rng: bool(segs.insert(0, ["junk", "", rng.choice(["\r\n", "\r\n\r\n"])]) or True),
     "te_empty_first": _te_variant(",chunked"),
     "te_empty_last": _te_variant("chunked,"),
     "te_vtab": _te_variant("\x0bchunked"),
